@@ -824,13 +824,17 @@ impl<W: Read + Write> MysqlShim<W> for ScriptShim {
         r
     }
 
+    #[cfg(feature = "tls")]
     fn tls_config(&self) -> Option<Arc<rustls::ServerConfig>> {
         self.log.borrow_mut().tls_config_calls += 1;
         self.tls.clone()
     }
 
     fn after_authentication(&mut self, ctx: &AuthenticationContext<'_>) -> Result<(), ShimErr> {
+        #[cfg(feature = "tls")]
         let certs = ctx.tls_client_certs.map(|cs| cs.iter().map(|c| c.as_ref().to_vec()).collect());
+        #[cfg(not(feature = "tls"))]
+        let certs = None;
         let i = self.begin(CbKind::Auth { user: ctx.username.clone(), certs });
         self.end(i);
         match self.auth_reject {
@@ -877,6 +881,7 @@ impl<W: Read + Write> MysqlShim<W> for DefaultInitShim {
     fn on_query(&mut self, q: &str, r: QueryResultWriter<'_, W>) -> Result<(), ShimErr> {
         self.0.on_query(q, r)
     }
+    #[cfg(feature = "tls")]
     fn tls_config(&self) -> Option<Arc<rustls::ServerConfig>> {
         <ScriptShim as MysqlShim<W>>::tls_config(&self.0)
     }
